@@ -680,7 +680,8 @@ impl Interaction {
 }
 
 fn get_mat_var_size(mat_len: usize) -> Result<usize, ()> {
-    get_power_of_two(mat_len).map(|i| i >> 1)
+    // A 2^n x 2^n matrix has 2^(2n) entries: the exponent must be even.
+    get_power_of_two(mat_len).and_then(|i| if i % 2 == 0 { Ok(i >> 1) } else { Err(()) })
 }
 
 fn get_power_of_two(n: usize) -> Result<usize, ()> {
